@@ -163,11 +163,17 @@ def match_known(known, pid, viol):
 # ---------------------------------------------------------------------------
 # minimisation
 
-def minimise(pid, prop, case, decisions, vclass, cap, budget_tests=80):
-    """Shrink (case, decisions) while the same violation class persists."""
+def minimise(pid, prop, case, decisions, vclass, cap, budget_tests=80,
+             budget_wall_s=240.0):
+    """Shrink (case, decisions) while the same violation class persists.
+    Bounded in tests and in wall time (a long computation takes many seconds
+    per attempt); what has been reached by then is reported."""
     tests = [0]
+    t_end = time.monotonic() + budget_wall_s
 
     def fails(c, d):
+        if time.monotonic() > t_end:
+            return False          # out of time: keep what we have
         tests[0] += 1
         r = replay_once(pid, c, d, cap)
         return any(v.get("class") == vclass for v in r.get("violations", []))
